@@ -752,4 +752,5 @@ def run(col, configs, tier):
         guarded(col, rule_cut_exposes_no_zeros, facts)
         guarded(col, rule_radix_positional_counts, facts)
         guarded_soft(col, X.rule_incremented_digit_in_range, facts)
+        guarded_soft(col, X.rule_round_up_stores_digits, facts)
         guarded_soft(col, X.rule_zero_exponent_normalised, facts)
